@@ -80,7 +80,7 @@ func C16(e *simkern.Env) {
 				for s := 0; s < nStreams && !e.Violated(); s++ {
 					m := []struct{ name, mode string }{{"exch", "exchange"}, {"exch2", "exchange"}, {"dyn", "exchange"}}[tp.Draw(3)]
 					nonce := int64(16000 + c*100 + s)
-					sc := hx.GenStreamScript(tp, nonce, "exchange", hx.GenOpts{MaxTurns: 6, FailBias: 5, AllowMeta: true})
+					sc := hx.GenStreamScript(tp, nonce, "exchange", hx.GenOpts{MaxTurns: 6, FailBias: 5, AllowMeta: true, NoHook: true})
 					sc.Header = m.name != "exch2"
 					op := &pipew.Op{Kind: "stream", Method: m.name, Script: sc, StreamKind: "exchange", CancelAt: -1}
 					inputs := 1 + tp.Draw(len(sc.Turns)+2)
@@ -128,8 +128,12 @@ func C16(e *simkern.Env) {
 								e.Violate("panic", site+"/cancel", "panic: %v", ct.Resp.Panicked)
 								return
 							}
-							if after.CancelCalls-before.CancelCalls != 1 {
-								e.Violate("cancel-hook-count", site+"/cancel", "cancel continuation ran the cancel hook %d times, expected 1", after.CancelCalls-before.CancelCalls)
+							wantHook := 1
+							if sc.NoHook {
+								wantHook = 0 // the state has no cancel hook; the stream must still end
+							}
+							if after.CancelCalls-before.CancelCalls != wantHook {
+								e.Violate("cancel-hook-count", site+"/cancel", "cancel continuation ran the cancel hook %d times, expected %d", after.CancelCalls-before.CancelCalls, wantHook)
 								return
 							}
 							if after.ExchangeCalls != before.ExchangeCalls {
